@@ -20,7 +20,12 @@ import (
 	"strings"
 )
 
-var c19Pkgs = []string{"stream", "message", "security"}
+var c19Pkgs = []string{"stream", "message", "security", "server", "client", "ccb"}
+
+// corePkgs: the packages whose every call site must also handle its error in an
+// accepted way; in the caller packages (server, client, ccb) the obligation is on
+// the context that is handed down.
+var corePkgs = map[string]bool{"stream": true, "message": true, "security": true}
 
 type fn struct {
 	key     string // e.g. stream.Stream.readWithContext
@@ -1041,6 +1046,14 @@ func (a *analysis) rawIO() []rawSite {
 				continue
 			}
 			sig := o.Type().(*types.Signature)
+			if sig.Recv() != nil && (o.Name() == "SetDeadline" || o.Name() == "SetReadDeadline" || o.Name() == "SetWriteDeadline") {
+				if sel, ok := ast.Unparen(s.call.Fun).(*ast.SelectorExpr); ok {
+					if c := a.classOf(f, sel.X); c == "RConn" || c == "RTLS" || c == "RUnknown" {
+						out = append(out, rawSite{k, o.Name(), "RDeadline"})
+					}
+				}
+				continue
+			}
 			if sig.Recv() != nil && rwMethods[o.Name()] {
 				sel, ok := ast.Unparen(s.call.Fun).(*ast.SelectorExpr)
 				if !ok {
@@ -1160,7 +1173,7 @@ func factsC19(b *strings.Builder) error {
 		return ids[n]
 	}
 	raws := a.rawIO()
-	var rawLines, siteLines, initLines []string
+	var rawLines, siteLines, callerLines, initLines []string
 	for _, r := range raws {
 		rawLines = append(rawLines, fmt.Sprintf("  mk_raw %d %s %s", id(r.fn), coqStr(r.callee), r.class))
 	}
@@ -1176,7 +1189,12 @@ func factsC19(b *strings.Builder) error {
 			ord++
 			s.ctxKind = a.ctxKind(s)
 			s.errKind = a.errKindOf(s, nil)
-			siteLines = append(siteLines, fmt.Sprintf("  mk_site %d %d %d %s %s (* %s -> %s *)", id(k), id(s.callee), s.ord, s.ctxKind, s.errKind, k, s.callee))
+			line := fmt.Sprintf("  mk_site %d %d %d %s %s (* %s -> %s *)", id(k), id(s.callee), s.ord, s.ctxKind, s.errKind, k, s.callee)
+			if corePkgs[k[:strings.Index(k, ".")]] {
+				siteLines = append(siteLines, line)
+			} else {
+				callerLines = append(callerLines, line)
+			}
 		}
 	}
 	for _, c := range a.ctxInits() {
@@ -1192,6 +1210,7 @@ func factsC19(b *strings.Builder) error {
 	}
 	b.WriteString("].\n\nDefinition raw_io : list raw_site := [\n" + joinCoq(rawLines))
 	b.WriteString("\n].\n\nDefinition io_sites : list io_site := [\n" + joinCoq(siteLines))
+	b.WriteString("\n].\n\n(* call sites in the caller packages server/, client/, ccb/ *)\nDefinition caller_sites : list io_site := [\n" + joinCoq(callerLines))
 	b.WriteString("\n].\n\nDefinition ctx_inits : list ctx_init := [\n" + joinCoq(initLines))
 	b.WriteString("\n].\n")
 	return nil
